@@ -46,6 +46,35 @@ def _self_attr_call(c: ast.Call, attr: str, meth_names: Set[str]) -> bool:
         and f.value.attr == attr and isinstance(f.value.value, ast.Name) and f.value.value.id == "self"
 
 
+def schedule_roles(sched: ast.AST) -> Dict[str, str]:
+    """The locals of Controller._schedule by role (how they are defined), keyed by their spelling on the pinned tree."""
+    def over(v, name):
+        return isinstance(v, ast.ListComp) and len(v.generators) == 1 and isinstance(v.generators[0].iter, ast.Name) \
+            and v.generators[0].iter.id == name
+    local_fns = {n.name for n in ast.walk(sched) if isinstance(n, ast.FunctionDef) and n is not sched}
+    r: Dict[str, str] = {}
+    fin = [c for c in source.calls_in(sched) if last_attr(c) == "finalize_submit_components"]
+    r["ready"] = fin[0].args[0].id if fin and fin[0].args and isinstance(fin[0].args[0], ast.Name) else "ready"
+    r["producers_failed"] = match.role(sched, lambda v: isinstance(v, ast.ListComp) and "FAILED_STATE" in source.src(v), "producers_failed")
+    pf = [v for v in match.assigned_value(sched, r["producers_failed"]) if isinstance(v, ast.ListComp)]
+    r["dependencies"] = pf[0].generators[0].iter.id if pf and isinstance(pf[0].generators[0].iter, ast.Name) else "dependencies"
+    deps = r["dependencies"]
+    r["producers_shutdown"] = match.role(sched, lambda v: over(v, deps) and "SHUTDOWN_STATE" in source.src(v), "producers_shutdown")
+    r["is_aggregate"] = match.role(sched, lambda v: "isAggregating" in source.src(v) or (
+        "aggregate" in source.src(v) and "workflowAttributes" in source.src(v)), "is_aggregate")
+    r["replica_inputs"] = match.role(sched, lambda v: over(v, deps) and len(v.generators[0].ifs) == 1
+                                     and isinstance(v.generators[0].ifs[0], ast.Call) and isinstance(v.generators[0].ifs[0].func, ast.Name)
+                                     and v.generators[0].ifs[0].func.id in local_fns, "replica_inputs")
+    rep = r["replica_inputs"]
+    r["non_replica_inputs"] = match.role(sched, lambda v: over(v, deps) and len(v.generators[0].ifs) == 1
+                                         and isinstance(v.generators[0].ifs[0], ast.Compare) and isinstance(v.generators[0].ifs[0].ops[0], ast.NotIn)
+                                         and dotted(v.generators[0].ifs[0].comparators[0]) == rep, "non_replica_inputs")
+    nrep = r["non_replica_inputs"]
+    r["shutdown_replicas"] = match.role(sched, lambda v: over(v, rep) and "SHUTDOWN_STATE" in source.src(v), "shutdown_replicas")
+    r["shutdown_non_replicas"] = match.role(sched, lambda v: over(v, nrep) and "SHUTDOWN_STATE" in source.src(v), "shutdown_non_replicas")
+    return r
+
+
 def run(ctx) -> None:
     ctx.explanation = (
         "Who-may-launch call-site enumeration, CFG dominance of the dependency/shutdown guards over every "
@@ -119,8 +148,10 @@ def run(ctx) -> None:
     ctx.analysed(sched)
     cfg = CFG(sched)
     ctx.paths += cfg.paths_count()
+    R_ = schedule_roles(sched)
+    READY, PFAILED, DEPS, PSHUT, ISAGG = R_["ready"], R_["producers_failed"], R_["dependencies"], R_["producers_shutdown"], R_["is_aggregate"]
     ready_nodes = [n for n in cfg.nodes if n.kind == "stmt" and n.ast is not None and any(
-        isinstance(c.func, ast.Attribute) and c.func.attr == "append" and dotted(c.func.value) == "ready"
+        isinstance(c.func, ast.Attribute) and c.func.attr == "append" and dotted(c.func.value) == READY
         for c in own_calls(n.ast))]
     fake_nodes = match.nodes_calling(cfg, lambda c: last_attr(c) == "_fake_finish_with_state")
     ctx.floor("C01.R2-guard-dominates-ready", len(ready_nodes), 1, "ready.append sites in _schedule")
@@ -148,13 +179,13 @@ def run(ctx) -> None:
                construct=short(rn.ast) + " <- not-done guard")
 
     # R3: producers_failed / producers_shutdown tests
-    failed_tests = match.test_nodes(cfg, lambda t: "T" if isinstance(t, ast.Name) and t.id == "producers_failed" else None)
-    shut_tests = match.test_nodes(cfg, lambda t: "T" if isinstance(t, ast.Name) and t.id == "producers_shutdown" else None)
-    agg_tests = match.test_nodes(cfg, lambda t: "T" if isinstance(t, ast.Name) and t.id == "is_aggregate" else None)
+    failed_tests = match.test_nodes(cfg, lambda t: "T" if isinstance(t, ast.Name) and t.id == PFAILED else None)
+    shut_tests = match.test_nodes(cfg, lambda t: "T" if isinstance(t, ast.Name) and t.id == PSHUT else None)
+    agg_tests = match.test_nodes(cfg, lambda t: "T" if isinstance(t, ast.Name) and t.id == ISAGG else None)
     ctx.require(bool(agg_tests), "anchor missing: is_aggregate test in _schedule")
     # the lists tested must be what their names say
-    _check_state_list(ctx, sched, "producers_failed", "FAILED_STATE", "C01.R3-failed-shutdown-producers")
-    _check_state_list(ctx, sched, "producers_shutdown", "SHUTDOWN_STATE", "C01.R3-failed-shutdown-producers")
+    _check_state_list(ctx, sched, PFAILED, "FAILED_STATE", "C01.R3-failed-shutdown-producers", DEPS)
+    _check_state_list(ctx, sched, PSHUT, "SHUTDOWN_STATE", "C01.R3-failed-shutdown-producers", DEPS)
     for rn in ready_nodes:
         ok = match.only_via_edges(cfg, rn, [(n, "F") for n, _ in failed_tests])
         ctx.ob("C01.R3-failed-shutdown-producers", rn.ast, ok,
@@ -205,10 +236,12 @@ def run(ctx) -> None:
                    % short(r_.ast.value, 80))
         else:
             raise AnalysisError("_input_dependencies_satisfied returns an expression the rule cannot classify: %s" % short(r_.ast, 100))
-    prod_tests = match.test_nodes(c2, _len_positive_of("active_producers"))
+    APROD = match.role(ids, lambda v: isinstance(v, ast.Subscript) and isinstance(v.slice, ast.Constant) and v.slice.value == "producers", "active_producers")
+    ASUBJ = match.role(ids, lambda v: isinstance(v, ast.Subscript) and isinstance(v.slice, ast.Constant) and v.slice.value == "subjects", "active_subjects")
+    prod_tests = match.test_nodes(c2, _len_positive_of(APROD))
     subj_tests = match.test_nodes(c2, lambda t: _membership(t, "comp_staged_in"))
     # active_producers must be the 'producers' entry of _comp_get_active_predecessors
-    vals = match.assigned_value(ids, "active_producers")
+    vals = match.assigned_value(ids, APROD)
     okp = any(isinstance(v, ast.Subscript) and isinstance(v.slice, ast.Constant) and v.slice.value == "producers"
               for v in vals)
     ctx.ob("C01.R4-deps-satisfied", vals[0] if vals else ids, okp,
@@ -221,7 +254,7 @@ def run(ctx) -> None:
                "'return True' is reachable while an active producer exists",
                construct="return True <- no active producer")
         # every subject examined: the loop over active subjects returns False when one is not staged in
-        for_nodes = [n for n in c2.nodes if n.kind == "for" and "active_subjects" in source.names_in(n.ast.iter)]
+        for_nodes = [n for n in c2.nodes if n.kind == "for" and ASUBJ in source.names_in(n.ast.iter)]
         ok2 = bool(for_nodes) and bool(subj_tests)
         if ok2:
             # on the not-staged-in side the function returns False (never reaches return True)
@@ -432,15 +465,25 @@ def _len_positive_of(name: str):
     return pred
 
 
+def _const_name(fn: Optional[ast.AST], e: ast.AST, depth: int = 0) -> str:
+    """last component of a dotted constant such as experiment.model.codes.SHUTDOWN_STATE, followed through a local that is
+    just another name for it (SHUTDOWN_STATE = experiment.model.codes.SHUTDOWN_STATE)"""
+    d = dotted(e) or ""
+    if isinstance(e, ast.Name) and fn is not None and depth < 3:
+        vals = match.assigned_value(fn, e.id)
+        if len(vals) == 1:
+            return _const_name(fn, vals[0], depth + 1)
+    return d.split(".")[-1]
+
+
 def _second_arg_is(node: ast.AST, const_name: str) -> bool:
     for c in own_calls(node):
         if last_attr(c) == "_fake_finish_with_state" and len(c.args) >= 2:
-            d = dotted(c.args[1]) or ""
-            return d.split(".")[-1] == const_name
+            return _const_name(source.enclosing_def(c), c.args[1]) == const_name
     return False
 
 
-def _check_state_list(ctx, fn, name: str, state: str, rule: str) -> None:
+def _check_state_list(ctx, fn, name: str, state: str, rule: str, deps: str = "dependencies") -> None:
     vals = match.assigned_value(fn, name)
     ctx.require(bool(vals), "anchor missing: %s in %s" % (name, source.qualname(fn)))
     for v in vals:
@@ -451,9 +494,9 @@ def _check_state_list(ctx, fn, name: str, state: str, rule: str) -> None:
             tgt = g.target.id if isinstance(g.target, ast.Name) else None
             cp = match.compare_parts(cond)
             if cp and isinstance(cp[1], ast.Eq) and tgt and dotted(cp[0]) == tgt + ".state":
-                rhs = dotted(cp[2]) or ""
-                ok = rhs.split(".")[-1] == state and isinstance(v.elt, ast.Name) and v.elt.id == tgt \
-                    and isinstance(g.iter, ast.Name) and g.iter.id == "dependencies"
+                rhs = _const_name(fn, cp[2])
+                ok = rhs == state and isinstance(v.elt, ast.Name) and v.elt.id == tgt \
+                    and isinstance(g.iter, ast.Name) and g.iter.id == deps
         ctx.ob(rule, v, ok,
                "%s = the producers whose state is %s" % (name, state) if ok else
                "%s is no longer 'the dependencies whose state == %s'" % (name, state),
@@ -473,15 +516,29 @@ def _check_partition(ctx, fn: ast.FunctionDef) -> None:
     ctx.require(prod is not None and subj is not None,
                 "anchor missing: ret['producers'] / ret['subjects'] comprehensions in _comp_get_active_predecessors")
 
+    # roles: the 'is repeating' flag (read from workflowAttributes['isRepeat']), the component's own stage (read from
+    # .stageIndex / ParseProducerReference of its own name), the list of active predecessors (filtered by node_is_active)
+    IS_REPEAT = match.role(fn, lambda v: "isRepeat" in source.src(v), "comp_is_repeat")
+    OWN_STAGE = match.role(fn, lambda v: ("stageIndex" in source.src(v)) or (isinstance(v, ast.Call) and last_attr(v) == "ParseProducerReference"),
+                           "comp_stage_idx")
+    for n in source.walk_own(fn):     # tuple assignment: stage, _, _ = ParseProducerReference(node_name)
+        if isinstance(n, ast.Assign) and isinstance(n.targets[0], ast.Tuple) and isinstance(n.value, ast.Call) \
+                and last_attr(n.value) == "ParseProducerReference" and n.targets[0].elts and isinstance(n.targets[0].elts[0], ast.Name):
+            stage_names = {n.targets[0].elts[0].id}
+            if OWN_STAGE not in stage_names and not match.assigned_value(fn, OWN_STAGE):
+                OWN_STAGE = n.targets[0].elts[0].id
+    ACTIVE = match.role(fn, lambda v: isinstance(v, ast.ListComp) and any(isinstance(c, ast.Call) and last_attr(c) == "node_is_active"
+                                                                           for g in v.generators for c in g.ifs), "active_predecessors")
+
     def atomise(e: ast.AST) -> Optional[Tuple[str, bool]]:
         """map an atomic condition to (atom, polarity)"""
         cp = match.compare_parts(e)
         if cp is None:
-            if isinstance(e, ast.Name) and e.id == "comp_is_repeat":
+            if isinstance(e, ast.Name) and e.id == IS_REPEAT:
                 return ("is_repeat", True)
             return None
         l, op, r = cp
-        if isinstance(l, ast.Name) and l.id == "comp_is_repeat" and isinstance(r, ast.Constant) and isinstance(r.value, bool):
+        if isinstance(l, ast.Name) and l.id == IS_REPEAT and isinstance(r, ast.Constant) and isinstance(r.value, bool):
             if isinstance(op, (ast.Is, ast.Eq)):
                 return ("is_repeat", r.value)
             if isinstance(op, (ast.IsNot, ast.NotEq)):
@@ -492,7 +549,7 @@ def _check_partition(ctx, fn: ast.FunctionDef) -> None:
                 and last_attr(x.value) == "ParseProducerReference" and isinstance(x.slice, ast.Constant) \
                 and x.slice.value == 0
         def is_own_stage(x):
-            return isinstance(x, ast.Name) and x.id == "comp_stage_idx"
+            return isinstance(x, ast.Name) and x.id == OWN_STAGE
         if (is_stage_of_pred(l) and is_own_stage(r)) or (is_stage_of_pred(r) and is_own_stage(l)):
             if isinstance(op, ast.Eq):
                 return ("same_stage", True)
@@ -504,7 +561,7 @@ def _check_partition(ctx, fn: ast.FunctionDef) -> None:
     for label, node in (("producers", prod), ("subjects", subj)):
         comp = node.value
         ok_shape = len(comp.generators) == 1 and isinstance(comp.generators[0].iter, ast.Name) \
-            and comp.generators[0].iter.id == "active_predecessors" and isinstance(comp.elt, ast.Name) \
+            and comp.generators[0].iter.id == ACTIVE and isinstance(comp.elt, ast.Name) \
             and isinstance(comp.generators[0].target, ast.Name) and comp.elt.id == comp.generators[0].target.id
         ctx.ob("C01.R5-partition", node, ok_shape,
                "ret['%s'] selects elements of active_predecessors unchanged" % label if ok_shape else
@@ -523,10 +580,11 @@ def _check_partition(ctx, fn: ast.FunctionDef) -> None:
     if free:
         ctx.note("predecessor filters contain unrecognised atoms treated as free booleans: %s" % free)
     # active_predecessors itself = predecessors filtered by node_is_active
-    ap = match.assigned_value(fn, "active_predecessors")
+    ap = match.assigned_value(fn, ACTIVE)
     ok = len(ap) == 1 and isinstance(ap[0], ast.ListComp) and len(ap[0].generators[0].ifs) == 1 \
         and isinstance(ap[0].generators[0].ifs[0], ast.Call) and last_attr(ap[0].generators[0].ifs[0]) == "node_is_active" \
-        and isinstance(ap[0].generators[0].iter, ast.Name) and ap[0].generators[0].iter.id == "predecessors"
+        and isinstance(ap[0].generators[0].iter, ast.Name) and any(
+            "predecessors" in source.src(v) or "represents" in source.src(v) for v in match.assigned_value(fn, ap[0].generators[0].iter.id))
     ctx.ob("C01.R5-partition", ap[0] if ap else fn, ok,
            "active_predecessors = predecessors that node_is_active" if ok else
            "active_predecessors is no longer 'predecessors filtered by node_is_active'")
